@@ -34,6 +34,28 @@ def _paths(ctx, name, mv=1):
 SYN = "Result::Err{0: Error::syntax("
 
 
+def _expr_context(ctx):
+    """How parse_expr is told that it parses the whole pattern and not a parenthesised group: the one-element flags
+    slice inherited from the Java code (`[NODE_TOPLEVEL]`, tested with `flags[0] & 2`) or a two-valued enum.  Returns
+    (guard that holds at top level, argument compile() must pass, test of the argument the '(' arm may pass)."""
+    b = ctx.body(RC + "parse_expr")
+    topg = None
+    if b is not None:
+        for p in ctx.walk(b, max_visits=1).paths:
+            gs, r = summarize(p)
+            if p.end == "return" and "EndProgram::EndProgram" in r and gs:
+                topg = strip_ver(_sh(gs[0]))
+                break
+    if topg == "!eq(bitand(2, a2[0]), 0)":
+        return topg, "vec![2]", (lambda a: a == "a2")
+    m = re.match(r"^eq\(a2, ((?:\w+::)+\w+)\)$", topg or "")
+    if m:
+        top = m.group(1)
+        enum = top.rsplit("::", 1)[0]
+        return topg, top, (lambda a: a.startswith(enum + "::") and a != top)
+    return "!eq(bitand(2, a2[0]), 0)", "vec![2]", (lambda a: a == "a2")
+
+
 @rule("THERE-FOLLOWS", ["C07", "C05", "C09"], floor=4)
 def there_follows(ctx):
     """there_follows(s): false when fewer than |s| characters remain; otherwise true iff pattern[idx+k] == s[k] for
@@ -47,6 +69,25 @@ def there_follows(ctx):
         return [missing(RC + "there_follows")]
     d = {}
     loops = b.natural_loops()
+    if len(loops) == 0:
+        # no loop: the window pattern[idx..idx+|s|] compared with the characters of s as a whole, after the length test
+        LEN0 = r"(?:len\((?:Iterator::collect\()?chars\(a2\)\)?\)|(?:<Chars as Iterator>|Iterator)::count\(chars\(a2\)\)|len\(a2\))"
+        LT0 = r"lt\(a1\.len, add\((?:a1\.idx, %s|%s, a1\.idx)\)\)" % (LEN0, LEN0)
+        W = r"a1\.pattern\[Range::Range\{start: a1\.idx, end: add\((?:a1\.idx, %s|%s, a1\.idx)\)\}\]" % (LEN0, LEN0)
+        S = r"(?:chars\(a2\)|Iterator::collect\(chars\(a2\)\))"
+        WI = r"(?:Iterator::copied\(%s\)|Iterator::cloned\(%s\)|%s)" % (W, W, W)
+        EQ = r"^(?:Iterator::eq|eq)\((?:%s, %s|%s, %s)\)$" % (WI, S, S, WI)
+        rows = [([strip_ver(g) for g in summarize(p)[0]], strip_ver(summarize(p)[1]), p) for p in ctx.walk(b).paths]
+        short = [x for x in rows if x[0] and re.match("^" + LT0 + "$", x[0][0])]
+        fits = [x for x in rows if x[0] and re.match("^!" + LT0 + "$", x[0][0])]
+        if "len(a2)" in "".join(g for x in rows for g in x[0]) :
+            fits = []  # the byte length of s is not its number of characters
+        good_short = bool(short) and all(r == "false" and len(gs) == 1 for gs, r, p in short)
+        good_fits = bool(fits) and len(short) + len(fits) == len(rows) and all(len(gs) == 1 and re.match(EQ, r) for gs, r, p in fits)
+        _rec(d, "too-short", good_short, "when fewer than |s| characters remain there_follows must answer false", b.loc())
+        for k in ("length-test", "runs-over-s", "compares-same-index", "true-after-all-equal", "false-on-mismatch", "continues-on-match"):
+            _rec(d, k, good_short and good_fits, "without a loop there_follows must be: length test, then equality of the window pattern[idx..idx+|s|] with the characters of s as a whole; found %s" % [(gs, r[:120]) for gs, r, p in rows][:3], b.loc())
+        return _emit(d)
     if len(loops) != 1:
         return [bad("shape", "there_follows must compare the characters in one loop (found %d)" % len(loops), b.loc())]
     h = next(iter(loops))
@@ -146,7 +187,8 @@ def parse_dispatch(ctx):
             good = r.startswith("propagate(") or r == "Result::Ok{0: op(CharClass::new(CharacterClassBuilder::build(try(parse_character_class(a1)) as Continue.0)))}"
             _rec(d, "class", good, "'[' must be parse_character_class()?.build(); found %s" % r[:100], loc)
         elif ch == "(":
-            _rec(d, "group", r == "parse_expr(a1, a2)", "'(' must be parse_expr(flags); found %s" % r[:60], loc)
+            mg = re.match(r"^parse_expr\(a1, (.*)\)$", r)
+            _rec(d, "group", bool(mg) and _expr_context(ctx)[2](mg.group(1)), "'(' must be parse_expr with the context of a nested expression; found %s" % r[:60], loc)
         elif ch in ")]?+{*":
             _rec(d, "reject|%s" % ch, r.startswith(SYN), "'%s' at the start of a term must be Error::Syntax; found %s" % (ch, r[:60]), loc)
         elif ch == "|":
@@ -202,7 +244,7 @@ def parse_group(ctx):
     for p, gs, r in paths:
         loc = b.loc(p.blocks[-1])
         gs0 = [strip_ver(g) for g in gs]
-        top = gs0 and gs0[0] == "!eq(bitand(2, a2[0]), 0)"
+        top = gs0 and gs0[0] == _expr_context(ctx)[0]
         paren = "eq('(', a1.pattern[a1.idx])" in gs0
         noncap = paren and "eq('?', a1.pattern[add(1, a1.idx)])" in gs0 and "eq(':', a1.pattern[add(2, a1.idx)])" in gs0
         if p.end != "return" or r.startswith("propagate("):
@@ -242,6 +284,10 @@ def parse_group(ctx):
         par = any(("variant(v" in g and "=Some" in g) or re.match(r"^isSome\(v\d+\)$", g) for g in gsx)
         # the "inside parentheses" fact may as well be a second boolean local (has_paren) next to `capturing`
         par = par or len({g.lstrip("!") for g in capt}) >= 2
+        # ... or both facts are one enum-valued local (absent / capturing(n) / non-capturing): its capturing variant
+        ev = [g for g in gsx if re.match(r"^variant\(v\d+\)=(?!Some$|None$|Ok$|Err$|Continue$|Break$)\w+$", g)]
+        if ev and not capt:
+            capt, par = ev, True
         _rec(d, "closed-only-if-capturing", bool(capt) and par, "captures.insert is not guarded by `capturing` (a closing non-capturing group would mark the next group number as closed: '(?:a)(b\\1)' accepted); guards %s" % sorted(gsx)[:4], b.loc(bb))
     for k in ("toplevel|end-program", "close-paren-required", "capture|numbered-at-open", "capture|closed-after-paren", "noncapturing|no-capture", "closed-only-if-capturing"):
         if k not in d:
@@ -267,7 +313,7 @@ def parse_eoi(ctx):
         loc = b.loc(p.blocks[-1])
         if r.startswith("Result::Ok"):
             _rec(d, "ok-only-at-end", any(re.match(r"^eq\((a1\.len|len\(.*\)), a1\.idx\)$|^eq\(a1\.idx, (a1\.len|len\(.*\))\)$", g) for g in gs0), "compile() returns a program although input remains (idx == len not established)", loc)
-            _rec(d, "optimize-applied", "optimize(try(parse_expr(a1, vec![2])) as Continue.0, a1.re_flags)" in strip_ver(r), "the parsed operation must be optimised with the regex flags and handed to ReProgram::new", loc)
+            _rec(d, "optimize-applied", ("optimize(try(parse_expr(a1, %s)) as Continue.0, a1.re_flags)" % _expr_context(ctx)[1]) in strip_ver(r), "the parsed operation must be optimised with the regex flags and handed to ReProgram::new", loc)
             pn = [e for e in p.effects if e[0] == "call" and e[1].endswith("ReProgram::new")]
             _rec(d, "group-count-is-parser-counter", len(pn) == 1 and strip_ver(render(pn[0][2][2])) == "Option::Some{0: a1.capturing_open_paren_count}", "the program's group count (max_parens) must be the parser's counter of opening parentheses - $N, the back-reference arrays and analyze number groups by it; found %s" % [strip_ver(render(e[2][2]))[:80] for e in pn], loc)
         elif any(re.match(r"^!eq\((a1\.len|len\(.*\)), a1\.idx\)$|^!eq\(a1\.idx, (a1\.len|len\(.*\))\)$", g) for g in gs0):
